@@ -36,7 +36,7 @@ Lemma split_go_nodelim delims trim max l : forall cur acc,
   split_go delims trim false false max l cur acc = sec_add trim false false acc (rev cur ++ l).
 Proof.
   induction l as [|c r IH]; intros cur acc H; simpl.
-  - rewrite app_nil_r. reflexivity.
+  - rewrite app_nil_r. rewrite frev_rev. reflexivity.
   - simpl in H. apply andb_true_iff in H as [Hc Hr]. apply negb_true_iff in Hc. rewrite Hc.
     destruct (negb (max =? 0)%nat && (max - 1 <=? length acc)%nat); rewrite IH by exact Hr;
       simpl; rewrite <- app_assoc; reflexivity.
